@@ -117,7 +117,7 @@ def heading_jobs(ctx, rng, sample=400):
     return [{"doc": d, "fmt": f} for d in docs for f in ("docx", "odt")], len(docs)
 
 
-def build_jobs(ctx, rng, two_block_sample=1200):
+def build_jobs(ctx, rng, two_block_sample=2600):
     """All (document, format) pairs of the suite for this tier."""
     shapes1 = gen_shapes(ctx, 1, True)
     shapes2 = [s for s in gen_shapes(ctx, 2, False) if len(s) == 2]
